@@ -7,7 +7,7 @@ MCUserPeriods == {"P1", "none"}
 MCCtors == {"list", "nan", "result1", "result2"}
 MCCtors1 == {"list"}
 
-NoHistView == <<ctor, L, I, saved, last>>
+NoHistView == <<ctor, nm, L, I, saved, last>>
 \* several workers: the history length must be part of the state identity under a length constraint
 DepthView == <<NoHistView, Len(hist)>>
 EmitState == (Len(hist) <= MaxLen /\ Len(hist) > 0) => PrintT(ToJson(hist))
